@@ -27,6 +27,11 @@ def bitAt (v : Int) (i : Nat) : Bool := (v / (2 : Int) ^ i) % 2 == 1
 /-- Byte `k` (little-endian index) of the two's-complement representation of `v`. -/
 def byteAt (v : Int) (k : Nat) : Nat := ((v / (256 : Int) ^ k) % 256).toNat
 
+/-- register names are matched without regard to letter case (`re.IGNORECASE` in every register
+    operand pattern; since fix c9198e6 also where register names are kept out of numeric
+    expressions and label definitions) -/
+def isRegName (regs : List String) (n : String) : Bool := regs.any fun r => r.toLower == n.toLower
+
 /-- `⌈n/8⌉` -/
 def ceil8 (n : Nat) : Nat := (n + 7) / 8
 
